@@ -6,6 +6,7 @@ def main(tier, replay):
     c = Check('C10', 'fault_enumeration', tier)
     quick = tier == 'quick'
     P = {k: v for k, v in c01.core_programs().items() if k in ('p1', 'p2', 'p3', 'p4', 'p5')}
+    P.update(progs.same_typed())  # columns of one type: a column decoded from its neighbour's chunk is not caught by a type mismatch
     mod, infos = setup_programs(c, P, TEMPLATES)
     if replay:
         replay_main(c, replay, infos, NATIVE)
@@ -18,7 +19,7 @@ def main(tier, replay):
         jobs.append(j)
     for n in P:
         for cd in (0, 1, 2):
-            if quick and n not in ('p1', 'p4') and cd != (len(n) + ord(n[-1])) % 3:
+            if quick and n not in ('p1', 'p4', 'same3', 'same3opt') and cd != (len(n) + ord(n[-1])) % 3:
                 continue
             J('fault-%s-c%d-ps1' % (n, cd), n, [2, 2, 1, 1, cd, 1, 0])
             if not quick:
